@@ -112,6 +112,21 @@ RetByPtr(t) == PassBy(t) = "pointer"
 (* Slots(ts)[j] = index of the parameter that occupies the j-th slot                   *)
 Slots(ts) == SelectSeq([i \in 1..Len(ts) |-> i], LAMBDA i : ~ZeroSized(ts[i]))
 
+(* ---- the Rust side of a type --------------------------------------------------------- *)
+(* What Rust hands over is `T`, what a script reads is `T::Transformed`.  Leaves, lists (the     *)
+(* elements are converted one by one when they are stored) and Verdict over such types are their *)
+(* own mirror; Option / Result are not: the mirror is a C-layout enum with the tag rule above,   *)
+(* while rustc is free to choose (it numbers None 0 / Some 1, or uses a niche of the payload).   *)
+RECURSIVE OwnMirror(_)
+OwnMirror(t) == IsLeaf(t) \/ IsList(t) \/ (t[1] = "Verdict" /\ OwnMirror(t[2]) /\ OwnMirror(t[3]))
+(* a conversion happens somewhere when a value of the type is stored for a script to read *)
+RECURSIVE Converts(_)
+Converts(t) == ~IsLeaf(t) /\ (t[1] \in {"Option", "Result"} \/ \E i \in 2..Len(t) : Converts(t[i]))
+(* leaves without a spare bit pattern: rustc gives Option[l] a tag of its own, so the Rust type  *)
+(* and its mirror have the same size and alignment, and a different encoding                     *)
+NoNiche == {"u8", "u16", "u32", "u64", "i8", "i16", "i32", "i64", "f32", "f64", "Asn", "C1", "T24"}
+SameShape(t) == t[1] = "Option" /\ Len(t) = 2 /\ IsLeaf(t[2]) /\ t[2][1] \in NoNiche
+
 (* ---- invariants of the rule (checked by TLC for every type of the grammar) ---------- *)
 RECURSIVE LayoutOK(_)
 LayoutOK(t) ==
